@@ -54,3 +54,31 @@ func TestSmallBlockKept(t *testing.T) {
 		t.Fatalf("the 4pt-wide block '7' is missing from the detected blocks: %q", bl.GetText())
 	}
 }
+
+// C09 / R9.7: paragraphs taken from the reading order carried column-relative X coordinates while headings and lists
+// were detected with page coordinates; buildElementTree matches them by bounding-box overlap, so a heading that starts
+// at the column edge and is narrower than that edge's distance from x=0 (any heading under 2in wide at a 1in margin)
+// was not recognised as the same text and came out twice: as a heading element and as a paragraph element.
+func TestInColumnHeadingEmittedOnce(t *testing.T) {
+	mk := func(s string, x, y, size float64) text.TextFragment {
+		return text.TextFragment{Text: s, X: x, Y: y, Width: float64(len(s)) * size * 0.5, Height: size, FontSize: size, FontName: "F1"}
+	}
+	frags := []text.TextFragment{
+		mk("Introduction", 72, 730, 16),
+		mk("Lorem ipsum dolor sit amet consectetur adipiscing elit sed do", 72, 700, 10),
+		mk("eiusmod tempor incididunt ut labore et dolore magna aliqua ut", 72, 686, 10),
+	}
+	res := layout.NewAnalyzer().Analyze(frags, 612, 792)
+	seen := map[string]int{}
+	for _, e := range res.Elements {
+		seen[strings.TrimSpace(e.Text)]++
+	}
+	for txt, n := range seen {
+		if n != 1 {
+			t.Errorf("%q appears %d times in the analysis elements, want once", txt, n)
+		}
+	}
+	if seen["Introduction"] == 0 {
+		t.Errorf("the heading is missing from the elements: %v", seen)
+	}
+}
